@@ -14,7 +14,10 @@ Metamorphic / differential oracle only (the hash formula is never re-implemented
     first 8 hex digits of the parser's digest, for every message, signal and reserved id;
 (e) ``Client.send_message`` stamps the class's ``type_hash`` into the version (``reserved``) field of the outgoing header:
     shipped core classes in process (plain and timecode header), generated classes compiled from generated closures and
-    imported in a fresh interpreter; the value on the wire equals the parser's digest prefix.
+    imported in a fresh interpreter; the value on the wire equals the parser's digest prefix.  Hypothesis-drawn sequences
+    of 3-10 sends on ONE client (both header layouts) over shipped core classes with and without payload, hand-defined
+    classes with explicit type_hash values and hand-written V1-style classes WITHOUT type_hash, send_signal interleaved:
+    every class that has a type_hash must be stamped whatever was sent before on that client.
 """
 from __future__ import annotations
 
@@ -47,7 +50,10 @@ RULE = ("Hypothesis draws a well-formed base closure (1-6 files, 1-3 directories
         "every message in every output must be the first 8 digits of the parser's digest; closures are parsed+compiled in two fresh "
         "processes (different PYTHONHASHSEED, cwd, location, output directory) and must agree; Client.send_message of every shipped core "
         "message class (both header layouts) and of generated classes imported in a fresh interpreter must put type_hash into the header's "
-        "version field. Non-trivial = an edit pair, or a relocation across files; distinct = (edit kind, what changed, message shape) / "
+        "version field - also in drawn sequences of 3-10 sends on one client that mix core classes, hand-defined classes with explicit "
+        "hashes, hand-written classes without type_hash and send_signal calls (plus a table: each hash-less class followed by every hashed "
+        "class and back). Non-trivial = an edit pair, a relocation across files, or a send of a class with type_hash after a send of a class "
+        "without one on the same client; distinct = (edit kind, what changed, message shape) / "
         "(relocation: new file?, directory changed?, message shape) / (output language, core imported, kind of message).")
 ASSUME = [
     "the digest of a message defined with 'fields: OTHER' identifies that reference text (it is the message's definition text); field edits are therefore applied to messages with an explicit field list only",
@@ -56,7 +62,8 @@ ASSUME = [
     "hash texts are extracted from the outputs by regular expressions (no MATLAB exists here; C and JavaScript are not executed by this check); the MATLAB name is the sanitised name (leading '_' and digits stripped)",
     "the C header deliberately omits core definitions, so core messages are compared in the Python, JavaScript and MATLAB outputs only",
     "Client internals _sock and _connected are set directly to attach the client to a socketpair (documented private poke, as in Engine D)",
-    "send_signal takes a bare message id and cannot know a hash; only send_message is covered by (e)",
+    "send_signal takes a bare message id and cannot know a hash; only send_message is covered by (e); the version field of send_signal headers and of classes without type_hash is a don't-care",
+    "the hand-written classes of the send sequences are built with MessageMeta on MessageData and are not registered with pyrtma.message_def (sending does not need the registry)",
     "a well-formed closure the parser rejects (not expected; generator is sound on the reference tree) is counted as inconclusive, acceptance is not this property",
 ]
 
@@ -509,6 +516,120 @@ def check_core_stamping(res: Result = None):
             b.close()
 
 
+# ---- sequences of sends on ONE client ---------------------------------------------------------------------------
+
+CORE_POOL = ["ACKNOWLEDGE", "EXIT", "CONNECT", "SUBSCRIBE", "MODULE_READY", "CLIENT_INFO", "FAILED_MESSAGE", "TIMING_MESSAGE",
+             "MESSAGE_TRAFFIC", "RTMA_LOG"]
+HAND_HASHES = {"HAND_A": 0x8A51C3D4, "HAND_B": 0x0BADF00D, "HAND_MAX": 0xFFFFFFFF, "HAND_ONE": 1, "HAND_EMPTY": 0x80000000}
+V1_NAMES = ["V1_PAYLOAD", "V1_EMPTY"]
+SIGNAL_IDS = [0, 1234, 9999]
+_POOL = None
+
+
+def class_pool():
+    """{name: class}: shipped core MDFs (with and without payload), hand-defined classes with explicit type_hash values and
+    two hand-written V1-style classes that have NO type_hash attribute (MessageData only annotates it).  Not registered."""
+    global _POOL
+    if _POOL is None:
+        import pyrtma.core_defs as cd
+        from pyrtma.message_base import MessageMeta
+        from pyrtma.message_data import MessageData
+        from pyrtma.validators import Double, Int32
+
+        pool = {n: getattr(cd, "MDF_" + n) for n in CORE_POOL}
+        for i, (n, h) in enumerate(HAND_HASHES.items()):
+            ns = {"type_id": 4001 + i, "type_name": n, "type_hash": h}
+            if n != "HAND_EMPTY":
+                ns.update({"type_size": 8, "a": Int32(), "b": Int32()} if i % 2 else {"type_size": 8, "val": Double()})
+            else:
+                ns["type_size"] = 0
+            pool[n] = MessageMeta("MDF_" + n, (MessageData,), ns)
+        pool["V1_PAYLOAD"] = MessageMeta("MDF_V1_PAYLOAD", (MessageData,), {"type_id": 4101, "type_name": "V1_PAYLOAD", "type_size": 8, "val": Double()})
+        pool["V1_EMPTY"] = MessageMeta("MDF_V1_EMPTY", (MessageData,), {"type_id": 4102, "type_name": "V1_EMPTY", "type_size": 0})
+        for n in V1_NAMES:
+            if hasattr(pool[n], "type_hash"):
+                raise HarnessError(f"hand-written class {n} unexpectedly has a type_hash")
+        for n, c in pool.items():
+            if n not in V1_NAMES and not hasattr(c, "type_hash"):
+                raise HarnessError(f"class {n} has no type_hash")
+        _POOL = pool
+    return _POOL
+
+
+SEND_NAMES = CORE_POOL + list(HAND_HASHES) + V1_NAMES
+
+
+def run_sequence(timecode: bool, ops: list, res: Result = None):
+    """ops: [["send", class name] | ["signal", id], ...] executed on ONE client attached to a socketpair; every header is read on
+    the peer end.  version must equal type_hash for every class that has one, whatever was sent before; for a class without
+    type_hash and for send_signal the version field is a don't-care."""
+    import ctypes
+    import warnings
+    from pyrtma.client import Client
+
+    pool = class_pool()
+    trace = {"stamp": "sequence", "timecode": timecode, "ops": ops}
+    c = Client(module_id=11, timecode=timecode)
+    a, b = _attach(c)
+    hs = 56 if timecode else 48
+    seen_v1 = False
+    try:
+        with warnings.catch_warnings():
+            warnings.simplefilter("ignore")
+            for k, (kind, arg) in enumerate(ops):
+                if kind == "signal":
+                    c.send_signal(int(arg))
+                    f = HDR.unpack_from(_read(b, hs))
+                    if f[0] != int(arg) or f[8] != 0:
+                        raise HarnessError(f"unexpected header for send_signal({arg}): {f}")
+                    continue
+                cls = pool[arg]
+                obj = cls()
+                c.send_message(obj)
+                f = HDR.unpack_from(_read(b, hs))
+                _read(b, f[8])
+                if f[0] != cls.type_id or f[8] != ctypes.sizeof(obj):
+                    raise HarnessError(f"unexpected header for {arg}: {f}")
+                if arg in V1_NAMES:
+                    seen_v1 = True
+                    continue
+                if f[11] != cls.type_hash:
+                    before = [o[1] for o in ops[:k]]
+                    raise Violation("header-version-not-stamped/after-earlier-sends" if k else "header-version-not-stamped",
+                                    f"send #{k + 1} on one client (timecode header: {timecode}): send_message({arg}) put {f[11]:#010x} into the "
+                                    f"version field, type_hash is {cls.type_hash:#010x}; sent before on this client: {before}", trace)
+                if res is not None:
+                    res.count("headers-checked/sequence")
+                    if seen_v1:
+                        res.count("sequence/hashed-send-after-hashless-send")
+                        res.shape("sequence", timecode, "core" if arg in CORE_POOL else "hand", cls.type_size == 0,
+                                  sum(1 for o in ops[:k] if o[1] in V1_NAMES) > 1, any(o[0] == "signal" for o in ops[:k]), min(k, 6))
+    finally:
+        a.close()
+        b.close()
+    if res is not None:
+        res.count("send-sequences")
+
+
+def st_sequences():
+    op = st.one_of(
+        st.tuples(st.just("send"), st.sampled_from(SEND_NAMES)),
+        st.tuples(st.just("send"), st.sampled_from(V1_NAMES)),  # hash-less classes at a higher rate
+        st.tuples(st.just("signal"), st.sampled_from(SIGNAL_IDS)),
+    )
+    return st.tuples(st.booleans(), st.lists(op, min_size=3, max_size=10))
+
+
+def sequence_table(res: Result):
+    """Deterministic part: each hash-less class followed by every class with a hash (and the reverse), both header layouts."""
+    hashed = CORE_POOL + list(HAND_HASHES)
+    for timecode in (False, True):
+        for v1 in V1_NAMES:
+            ops = [["send", hashed[0]], ["send", v1]] + [["send", n] for n in hashed] + [["signal", 1234], ["send", v1]] + [["send", n] for n in reversed(hashed)]
+            res.evaluations += 1
+            run_sequence(timecode, ops, res)
+
+
 CHILD_E = r"""
 import sys, json, socket, struct, importlib.util, logging
 logging.disable(logging.CRITICAL)
@@ -596,7 +717,7 @@ def check_generated_stamping(p: G.Program, res: Result = None, timecode: bool = 
 # ----------------------------------------------------------------------------------------------
 
 
-def shard(idx: int, seed: int, n_meta: int, out_every: int, n_proc: int, n_stamp: int, black: bool):
+def shard(idx: int, seed: int, n_meta: int, out_every: int, n_proc: int, n_stamp: int, black: bool, n_seq: int = 100):
     G.quiet()
     res = Result()
     counter = {"n": 0}
@@ -631,8 +752,11 @@ def shard(idx: int, seed: int, n_meta: int, out_every: int, n_proc: int, n_stamp
         if idx == 0:
             res.evaluations += 1
             check_core_stamping(res)
+        if idx == 1:
+            sequence_table(res)
     except Violation as v:
         res.add_finding(v.key, v.what, v.trace)
+    hyp_run(lambda v: run_sequence(v[0], [list(o) for o in v[1]], res), st_sequences(), seed + 9, n_seq, res)
     return res
 
 
@@ -642,7 +766,7 @@ def run(ctx: RunContext) -> int:
     q = ctx.quick
     # subprocess cases (two fresh interpreters per batch; a fresh interpreter per generated module) are kept to a handful in quick
     res = run_shards(shard, [(i, derive_seed(ctx.seed, i), n_meta, 6 if q else 3, (3 if i % 4 == 1 else 0) if q else ctx.scale(3, 20),
-                              (1 if i % 4 >= 2 else 0) if q else ctx.scale(2, 12), (not q) and i < 4) for i in range(16)])
+                              (1 if i % 4 >= 2 else 0) if q else ctx.scale(2, 12), (not q) and i < 4, ctx.scale(150, 5000)) for i in range(16)])
     return conclude(ctx, res, RULE, ASSUME, t0)
 
 
@@ -652,6 +776,8 @@ def replay_trace(trace: dict):
         check_outputs(G.Program.from_json(trace["outputs"]))
     elif "processes" in trace:
         check_processes([G.Program.from_json(trace["processes"])], black=trace.get("black", False))
+    elif trace.get("stamp") == "sequence":
+        run_sequence(trace["timecode"], trace["ops"])
     elif trace.get("stamp") == "core":
         check_core_stamping()
     elif trace.get("stamp") == "generated":
